@@ -481,8 +481,17 @@ func DownloadFolderHandler(rwc io.ReadWriter, fullPath string, fileTransfer *Fil
 			return fmt.Errorf("error sending file size: %w", err)
 		}
 
-		// Send ffo bytes to client
-		_, err = io.Copy(rwc, hlFile.Ffo)
+		// Send ffo bytes to client.  For a resumed file the data fork header must announce the remaining bytes only.
+		ffo := hlFile.Ffo
+		if dataOffset > 0 {
+			resumedFile, err := NewFileWrapper(fileStore, path, dataOffset)
+			if err != nil {
+				return err
+			}
+			ffo = resumedFile.Ffo
+		}
+
+		_, err = io.Copy(rwc, ffo)
 		if err != nil {
 			return fmt.Errorf("error sending flat file object: %w", err)
 		}
@@ -490,6 +499,11 @@ func DownloadFolderHandler(rwc io.ReadWriter, fullPath string, fileTransfer *Fil
 		file, err := fileStore.Open(path)
 		if err != nil {
 			return fmt.Errorf("error opening file: %w", err)
+		}
+
+		// Skip the part of the file that the client already has.
+		if _, err := file.Seek(dataOffset, io.SeekStart); err != nil {
+			return fmt.Errorf("error seeking to resume offset: %w", err)
 		}
 
 		// wr := bufio.NewWriterSize(rwc, 1460)
